@@ -10,6 +10,7 @@ Driver for stream `wire`: one op per line, one observation per line.
   encdag <0|1> <graph tokens…>  -> <hex> size=<n> | err     (stack item with shared compounds; 1 = protected form)
   txo new|dec <hex>|frombytes <hex>|size|hash|copy|bytes|script <hex>|nonce <n>|inv <i> <hex>
                               -> ok | err | <n> | <hex>   (one Transaction OBJECT with its cached size/hash; state of the case)
+  nefbytes <hex>              -> ok enc=<hex> v=<tokens> | err            (nef.FileFromBytes)
   jsont enc <item tokens>     -> <hex of the JSON text> | err             (ToJSONWithTypes)
   jsont dec <hex of text>     -> ok <item tokens> | err | panic | unsupported   (FromJSONWithTypes; plain ASCII JSON)
   jsonu enc <item tokens>     -> <hex of the JSON text> | err             (ToJSON)
@@ -332,6 +333,13 @@ def step (s : DrvSt) (ws : List String) : DrvSt × String :=
       | some none => (s, "err")
       | none => (s, "unsupported")
     | _, _ => (s, "bad-op")
+  | ["nefbytes", h] =>
+    match Hex.decode h with
+    | some b =>
+      match nefFromBytes Sha256.hash2 b with
+      | some n => (s, s!"ok enc={Hex.encode ((nefC Sha256.hash2).enc n)} v={joinToks (showNef n)}")
+      | none => (s, "err")
+    | none => (s, "bad-op")
   | "txo" :: rest => txoStep s rest
   | "exto" :: rest => extoStep s rest
   | ["putvaruint", n] =>
